@@ -46,6 +46,9 @@ func runStoreArea(cfg *config, flavour string, n int) error {
 		}
 		cs.add(s.val(), s)
 		cs.count(fmt.Sprintf("ops:%d", (len(s.Ops)/5)*5))
+		for k, n := range scripts[i].Kinds {
+			cs.stats["request-kind:"+k] += n
+		}
 		cs.count(fmt.Sprintf("edges-at-end:%d", func() int {
 			if len(s.Steps) == 0 {
 				return 0
